@@ -340,6 +340,15 @@ func (en *DefaultEngine) runFirst(ctx context.Context) (bool, error) {
 	en.st.Down("_first")
 	defer en.ca.Pop()
 	defer func() { en.st.SizeIdx = idx }()
+	if ca, ok := en.ca.(*cache.Cache); ok {
+		// the content of the first function replaces the session's last value only when it ends the request
+		last := ca.LastValue
+		defer func() {
+			if r {
+				ca.LastValue = last
+			}
+		}()
+	}
 	defer en.st.Up()
 	defer en.st.ResetFlag(state.FLAG_TERMINATE)
 	defer en.st.ResetFlag(state.FLAG_DIRTY)
